@@ -57,6 +57,12 @@ func kFrontends(c J) interface{} {
 		if err != nil {
 			return J{"load": errKind(err)}
 		}
+		if c["overlay"] != nil {
+			// settings from memory (no source) merged over the loaded document
+			if err := cfg.Merge(buildValue(c["overlay"]), opts...); err != nil {
+				return J{"load": errKind(err)}
+			}
+		}
 		res := J{"view": doRead(cfg, J{"r": "view"}, opts)}
 		if ty != nil {
 			target := reflect.New(ty)
